@@ -3,6 +3,8 @@ package main
 import (
 	"fmt"
 	"math"
+	"strconv"
+	"strings"
 
 	"github.com/tidwall/geojson"
 	"github.com/tidwall/geojson/geo"
@@ -236,6 +238,45 @@ func geoCheck2(op string, v []float64) (bool, string, string) {
 			// C09's / C10's business)
 			if g1 := c.Intersects(coll); g1 != (want || far) {
 				return true, fmt.Sprintf("circle intersects the collection (kind %d, %d children) iff it intersects the probe: %v", ci, n, want), fmt.Sprint(g1)
+			}
+		}
+	case "circle-doc":
+		// order (0..5: permutation of the members type / radius / radius_units),
+		// units (0 none, 1 "m", 2 "km"), radius, wrapper (0 bare, 1 in a FeatureCollection)
+		mem := []string{`"type":"Circle"`, `"radius":` + strconv.FormatFloat(v[2], 'g', -1, 64), ""}
+		scale := 1.0
+		switch int(v[1]) {
+		case 1:
+			mem[2] = `"radius_units":"m"`
+		case 2:
+			mem[2], scale = `"radius_units":"km"`, 1000
+		}
+		perm := [][3]int{{0, 1, 2}, {0, 2, 1}, {1, 0, 2}, {1, 2, 0}, {2, 0, 1}, {2, 1, 0}}[int(v[0])%6]
+		var parts []string
+		for _, i := range perm {
+			if mem[i] != "" {
+				parts = append(parts, mem[i])
+			}
+		}
+		props := `"properties":{"name":"c",` + strings.Join(parts, `,"k":1,`) + `}`
+		docs := []string{`{"type":"Feature","geometry":{"type":"Point","coordinates":[10,50]},` + props + `}`, `{"type":"Feature",` + props + `,"geometry":{"type":"Point","coordinates":[10,50]}}`}
+		for _, d := range docs {
+			if v[3] == 1 {
+				d = `{"type":"FeatureCollection","features":[` + d + `]}`
+			}
+			o, err := geojson.Parse(d, nil)
+			if err != nil {
+				return true, "accepted", err.Error() + ": " + d
+			}
+			if fc, ok := o.(*geojson.FeatureCollection); ok {
+				o = fc.Children()[0]
+			}
+			c, ok := o.(*geojson.Circle)
+			if !ok {
+				return true, "a Circle", fmt.Sprintf("%T for %s", o, d)
+			}
+			if want := v[2] * scale; c.Meters() != want || c.Center() != (geometry.Point{X: 10, Y: 50}) {
+				return true, fmt.Sprintf("centre (10,50), %v m", want), fmt.Sprintf("%v, %v m for %s", c.Center(), c.Meters(), d)
 			}
 		}
 	case "circle-serial":
@@ -688,6 +729,22 @@ func runC13(r *rt.Run) {
 				}
 			}
 		})
+	}
+	// Circle-convention documents with their three members in every order
+	{
+		w := r.Worker()
+		for perm := 0; perm < 6; perm++ {
+			for units := 0; units < 3; units++ {
+				for _, rad := range []float64{5, 0.5, 2500, 0} {
+					for wrap := 0; wrap < 2; wrap++ {
+						w.Trans++
+						w.Nontriv++
+						geoRun(w, "circle-doc", float64(perm), float64(units), rad, float64(wrap))
+					}
+				}
+			}
+		}
+		w.Flush()
 	}
 	// the zero value of Circle against the probe grid
 	{
